@@ -26,6 +26,8 @@ def setup(v):
         a.append("v=" + sq(raw(v["v"])))
     if v["n"]:
         a.append("n=" + sq(raw(v["n"])))
+    if v["ifs"]["set"]:
+        a.append("IFS=" + sq(raw(v["ifs"]["val"])))
     return "; ".join(a) + "; "
 
 
@@ -44,11 +46,13 @@ def fmt(fields):
 
 
 def describe(v, mode):
-    return "%s(%s) v=%s n=%s" % (mode, json.dumps(raw(v["src"])), json.dumps(raw(v["v"])), json.dumps(raw(v["n"])))
+    return "%s(%s) v=%s n=%s%s" % (mode, json.dumps(raw(v["src"])), json.dumps(raw(v["v"])), json.dumps(raw(v["n"])),
+                                  " IFS=" + json.dumps(raw(v["ifs"]["val"])) if v["ifs"]["set"] else "")
 
 
 def evaluate(ck, vecs, h):
-    env = lambda v: {"v": raw(v["v"]), "n": raw(v["n"]), "HOME": raw(v["home"])}
+    env = lambda v: {"v": raw(v["v"]), "n": raw(v["n"]), "HOME": raw(v["home"]),
+                     "IFS": raw(v["ifs"]["val"]) if v["ifs"]["set"] else ""}
     eres = vlib.run_harness(h, "shellapi", [{"s": raw(v["src"]), "env": env(v), "mode": "expand"} for v in vecs], shards=8)
     fres = vlib.run_harness(h, "shellapi", [{"s": raw(v["src"]), "env": env(v), "mode": "fields"} for v in vecs], shards=8)
     bdoc = vlib.run_shell_evals([bash_doc(v) for v in vecs], prelude=PRE, locale="C.utf8", jobs=4, per_process=3000)
@@ -110,7 +114,7 @@ def run(ck):
                       "compared with the spec and bash; distinct_nontrivial = strings with an expansion, quote, backslash, "
                       "brace or tilde token that are not an error in both modes")
     ck.assumptions += ["bash 5.2.15 as reference: here-document via `read -r -d '' o <<EOF`, arguments via `set -f; p <string>`",
-                       "HOME=/h in both; IFS unset; variables v (5 values incl. unset) and n (unset or 3)",
+                       "HOME=/h in both; IFS unset or ':' (through the env function); variables v (6 values incl. unset) and n (unset or 3)",
                        "an error is compared as an error only (not its message)"]
     for o in range(0, len(vecs), 50000):
         evaluate(ck, vecs[o:o + 50000], h)
